@@ -9,7 +9,7 @@ PROPERTY_RULES = {
     "C04": ["r_a8", "r_e1", "r_a6"],
     "C05": ["r_b1", "r_o3", "r_a2", "r_a12"],
     "C06": ["r_b1", "r_o3", "r_a2"],
-    "C07": ["r_a12", "r_a13", "r_a2"],
+    "C07": ["r_a12", "r_a13", "r_a2", "r_a9", "r_a11"],
     "C08": ["r_a11", "r_o3", "r_a2", "r_a4", "r_a8", "r_a12", "r_e2"],
     "C09": ["r_c4", "r_c3", "r_c1", "r_c5", "r_c7"],
     "C10": ["r_c2", "r_c1", "r_e1", "r_c5", "r_c7"],
